@@ -249,7 +249,7 @@ func runSeq(sc seqScenario) (calls []seqCall, fatal string) {
 		// a Release is fire-and-forget: give the peer a moment to read it so that it is
 		// attributed to this call (bounded wait on the counter, not a fixed sleep)
 		if op == "rel" || op == "tmrel" {
-			for w := 0; w < 2000 && s.count(proto) == k; w++ {
+			for w := 0; w < 100000 && s.count(proto) == k; w++ { // up to 10 s, returns as soon as it is read
 				time.Sleep(100 * time.Microsecond)
 			}
 		}
